@@ -658,24 +658,24 @@ _PN = ["scenario 1 %s / scenario 2 %s" % (STATUSES[k // 5].name, STATUSES[k % 5]
 OBLIGATIONS = [
     Ob(fn="unit_consumer", props=("C05", "C11", "C12"),
        clause="C11: suite/phase opened and closed exactly once, forwarded events in order, statuses consistent; C05: nothing a worker reported is lost and the exit code reflects it; C12: at most max-failures failures forwarded, nothing after a stop",
-       timeout={"quick": 120, "thorough": 400}, params=range(25), param_names=_PN, functions=_U,
+       timeout={"quick": 120, "thorough": 240}, params=range(25), param_names=_PN, functions=_U,
        symbolic="NonFatalError in scenario 1, a loader error, where the queue runs empty (2 places), whether a finished worker still looks alive, one or two workers, max_failures",
        bounds="2 scenarios (statuses enumerated: 25 pairs), <= 8 queue items, max_failures in {None,1,2}; no stop request",
        stubs=_STUBS, outside=["real thread interleavings and queue timing", "more than 2 scenarios / workers"]),
     Ob(fn="unit_consumer_stop", props=("C05", "C11", "C12"),
        clause="same postconditions when a stop request becomes visible at an arbitrary read of the stop flag",
-       timeout={"quick": 120, "thorough": 400}, params=range(25), param_names=_PN, functions=_U,
+       timeout={"quick": 120, "thorough": 240}, params=range(25), param_names=_PN, functions=_U,
        symbolic="the read of the stop flag at which it flips, NonFatalError in scenario 2, empty polls (2 places), one or two workers, max_failures",
        bounds={"quick": "flip at read 0..18 (the loop reads the flag up to 3 times per event)", "thorough": "0..24"}, stubs=_STUBS,
        outside=["real thread interleavings and queue timing"]),
     Ob(fn="unit_consumer_ctrl_c", props=("C11", "C12"),
        clause="C12: after Ctrl-C reaches the consumer the stop request is visible to the workers (no new scenario is started); C11: the phase is closed as INTERRUPTED",
-       timeout={"quick": 120, "thorough": 300}, params=range(25), param_names=_PN, functions=_U,
+       timeout={"quick": 120, "thorough": 240}, params=range(25), param_names=_PN, functions=_U,
        symbolic="position in the stream at which queue.get raises KeyboardInterrupt, NonFatalError in scenario 1, an empty poll, one or two workers", bounds="Ctrl-C at any of the first 8 queue reads",
        stubs=_STUBS, outside=["real signal delivery"]),
     Ob(fn="plan", props=("C05", "C11", "C12"),
        clause="C11: EngineStarted first, one EngineFinished last, phases opened/closed once in order; C12: after the limit later phases are SKIP(failure limit reached), no phase starts after a stop; C05: exit code non-zero iff an enabled phase failed/errored",
-       timeout={"quick": 150, "thorough": 400}, params=range(96), functions=["schemathesis.engine.core.ExecutionPlan.execute", "schemathesis.engine.phases.Phase.should_execute"] + _U[1:4],
+       timeout={"quick": 150, "thorough": 240}, params=range(96), functions=["schemathesis.engine.core.ExecutionPlan.execute", "schemathesis.engine.phases.Phase.should_execute"] + _U[1:4],
        symbolic="final status of each phase (4), failures counted inside the first two phases (enabled set, max_failures and the interrupted phase are enumerated: 96 shapes)",
        bounds="3 phases; <= 2 failures per phase; max_failures in {None,1,2}", stubs=["phases.execute replaced by a stub yielding PhaseFinished(symbolic status)"] + _STUBS[1:]),
     Ob(fn="worker", props=("C05", "C11", "C12"),
